@@ -55,12 +55,15 @@ Inductive fres := FBlock | FRaise (s : fst_) | FRet (o : option smp) (s : fst_).
 Definition sync_and_fetch (fuel : nat) (p : smp) (s : fst_) (pr : strm) : fres :=
   (* returns through FRet: the sample fetch_next_with_fallback returns for primary sample p *)
   let go (l : smp) (f : strm) :=
-    if fst p <? fst l then FRet (Some p) (mkF true (Some l) pr f)
-    else match catch_up fuel (fst p) l f with
-         | CBlock => FBlock
-         | CNone l' f' => FRet (Some p) (mkF true (Some l') pr f')
-         | CSome l' f' => FRet (Some (if valid (snd p) then p else l')) (mkF true (Some l') pr f')
-         end in
+    match catch_up fuel (fst p) l f with
+    | CBlock => FBlock
+    | CNone l' f' => FRet (Some p) (mkF true (Some l') pr f')
+    | CSome l' f' =>
+        (* after the loop: the fallback has no sample for the primary's timestamp (it is ahead,
+           or skipped it) -> None, i.e. the primary sample is returned *)
+        if fst p <? fst l' then FRet (Some p) (mkF true (Some l') pr f')
+        else FRet (Some (if valid (snd p) then p else l')) (mkF true (Some l') pr f')
+    end in
   match latest s with
   | Some l => go l (fb s)
   | None => match recv (fb s) with
